@@ -16,9 +16,13 @@ R2_MISSED = "C02-m3 C03-m3 C04-m4 C05-m3 C17-m3".split()
 R2_TIE = "C01-m3 C02-m4 C04-m3 C09-m3 C10-m3 C12-m4 C16-m3".split()
 R3_MISSED = "C03-m6 C08-m6 C14-m6".split()
 R3_TIE = "C03-m5 C05-m6 C09-m5 C09-m6 C10-m5 C11-m6".split()
-for k in R1_MISSED + R2_MISSED + R3_MISSED:
+R4_MISSED = "C12-m7".split()
+R4_TIE = "C02-m8 C04-m8 C12-m8 C15-m8".split()
+R5_MISSED = []  # filled in from selftest/round5_first_contact.log
+R5_TIE = []
+for k in R1_MISSED + R2_MISSED + R3_MISSED + R4_MISSED + R5_MISSED:
     FIRST[k] = "missed"
-for k in R1_TIE + R2_TIE + R3_TIE:
+for k in R1_TIE + R2_TIE + R3_TIE + R4_TIE + R5_TIE:
     FIRST[k] = "tie only"
 
 
@@ -52,14 +56,15 @@ def main():
                 w = rep.get("witness") or {}
                 if w.get("match"):
                     wit.add(w["match"])
-        rnd = "1" if sid[-1] in "12" else "2" if sid[-1] in "34" else "3"
+        k = int(sid.split("-m")[1])
+        rnd = str((k + 1) // 2)
         rows.append((sid, rnd, ", ".join(m.get("files", [])).replace("graphslam/", ""), short(m.get("what", ""), 230), short(m.get("needs", ""), 170), FIRST.get(sid, "input"), "yes" if r.get("caught") and r.get("with_failing_input") else ("tie only" if r.get("caught") else "NO"), ", ".join(sorted(ties)) or "–", short(", ".join(sorted(wit)), 90) or "–"))
     with open(os.path.join(V, "selftest", "TABLE.md"), "w") as f:
         f.write("| change | round | file | what was changed | what it needs | at first contact | now | ties that break | witness found by the search (`match`) |\n|---|---|---|---|---|---|---|---|---|\n")
         for row in rows:
             f.write("| " + " | ".join(row) + " |\n")
         n = len(rows)
-        for rnd in ("1", "2", "3"):
+        for rnd in sorted({x[1] for x in rows}):
             rr = [x for x in rows if x[1] == rnd]
             f.write("\nround %s: %d changes; at first contact %d caught with a concrete input, %d caught by a broken tie only, %d missed; now %d caught with a concrete input.\n" % (rnd, len(rr), sum(x[5] == "input" for x in rr), sum(x[5] == "tie only" for x in rr), sum(x[5] == "missed" for x in rr), sum(x[6] == "yes" for x in rr)))
     print(open(os.path.join(V, "selftest", "TABLE.md")).read()[-600:])
